@@ -102,6 +102,9 @@ def answerCal (cmd : String) (args : List String) : Option String :=
       pure (match xweekday 2958465 a b with
         | .ok v => toString v
         | .error e => showDErr e)
+  | "hms", [h, m, x] => do
+      let a ← parseInt? h; let b ← parseInt? m; let c ← parseInt? x
+      pure (match hmsOfTime a b c with | (hh, mm, ss) => s!"{hh},{mm},{ss}")
   | "dec2x", [b, n] => do
       let base ← parseNat? b; let k ← parseInt? n
       let mask ← (Generated.xmask.find? (·.1 == base)).map (·.2)
